@@ -5,6 +5,7 @@ import random
 from vlib import Ctx, main_wrap, pick, SPEC
 
 KINDS = ["upOpen", "downOpen", "meta", "upClose", "downClose", "upResume", "downResume"]
+WD_MS = int(os.environ.get("VERIF_C06_WDMS", "3000"))   # watchdog for a caller that should return (dev aid: shorter for mutant runs)
 INVS = "IdsDistinctAndEven OwnResponseOnly SpuriousHarmless CancelDoesNotSteal DispatcherNeverBlocks OutcomeAllowed NoCallerStuck"
 
 GEN_TMPL = """SPECIFICATION GenSpec
@@ -76,7 +77,7 @@ def scenario(fam, k, n, steps, mode, rnd, hold=False, ping_ms=None, delays=False
         for s in steps:
             if s["a"] in ("ans", "dup", "spur", "cancel") and rnd.random() < 0.3:
                 s["ms"] = rnd.choice([1, 2, 5])
-    p = {"n": n, "kinds": kinds, "mode": mode, "holdPong": hold, "wdMs": 3000}
+    p = {"n": n, "kinds": kinds, "mode": mode, "holdPong": hold, "wdMs": WD_MS}
     if ping_ms:
         p["pingMs"] = ping_ms
     return {"id": "C06/%s/%s%d" % (fam, mode[0], k), "kind": "reqreply", "p": p, "steps": steps}
@@ -136,7 +137,7 @@ def run():
     sims = gen(ctx, "simnb8", 8, dup=1, spur=1, cancel=2, barrier=False, simulate=60 if q else 400)
     add("simnb8", 8, sims, ["burst"], ping_ms=[2, 20000], delays=True)
 
-    trace = ctx.run_scenarios(scs, "c06", par=8)
+    trace = ctx.run_scenarios(scs, "c06", par=16)
     verdicts, r = ctx.validate(trace, "MonC06", consts={"Callers": "{1}", "Ping": 0, "MaxDup": 1, "MaxSpur": 1, "MaxCancel": 1, "PingTimeout": "FALSE",
                                                          "PingStarts": "TRUE", "GenBarrier": "FALSE", "GenPong": "TRUE", "GenCanon": "FALSE"}, timeout=1500)
     ctx.judge(scs, trace, verdicts)
